@@ -208,6 +208,7 @@ type world struct {
 	byNode  map[uint64]*mpoint
 	hist    []string
 	variant string
+	base    *int64 // "boundary" world: the sort keys n and i cluster around this value (nil: ordinary world)
 }
 
 func newWorld(dir string, file bool, n int, variant string) *world {
@@ -261,6 +262,125 @@ func genNum(r *vh.Rng) any {
 	}
 }
 
+// values where a numeric comparison can go wrong: neighbours above 2^53 (a float64 cannot tell them
+// apart), the ends of int64 / uint64, the same value in several widths and signednesses, floats at
+// and next to integers, float32 beside float64
+var bigBases = []int64{1700000000000000000, -1700000000000000000, 1 << 53, -(1 << 53), 1 << 62, math.MaxInt64 - 8, math.MinInt64 + 8, 1 << 24, 0}
+
+func narrow(v int64, r *vh.Rng) any {
+	// the same integer in another width / signedness when it fits
+	var c []any
+	c = append(c, v)
+	if v >= 0 {
+		c = append(c, uint64(v))
+	}
+	if int64(int32(v)) == v {
+		c = append(c, int32(v))
+	}
+	if v >= 0 && v <= math.MaxUint32 {
+		c = append(c, uint32(v))
+	}
+	if int64(int16(v)) == v {
+		c = append(c, int16(v))
+	}
+	if v >= 0 && v <= math.MaxUint16 {
+		c = append(c, uint16(v))
+	}
+	if int64(int8(v)) == v {
+		c = append(c, int8(v))
+	}
+	if v >= 0 && v <= math.MaxUint8 {
+		c = append(c, uint8(v))
+	}
+	return vh.Pick(r, c)
+}
+
+func genBoundary(r *vh.Rng, base int64) any {
+	d := int64(r.Intn(9) - 4)
+	switch r.Intn(12) {
+	case 0, 1, 2, 3:
+		return base + d // near-equal int64
+	case 4:
+		return narrow(base+d, r)
+	case 5:
+		f := float64(base)
+		switch r.Intn(8) {
+		case 0:
+			return math.Nextafter(f, math.Inf(1))
+		case 1:
+			return math.Nextafter(f, math.Inf(-1))
+		case 2:
+			return f + float64(d)/2
+		case 3:
+			return float32(f) // a float32 beside float64 neighbours: the widening is exact, the float64 values around it differ
+		case 4:
+			return float64(float32(f))
+		case 5:
+			return math.Nextafter(float64(float32(f)), math.Inf(1))
+		case 6:
+			return math.Nextafter(float64(float32(f)), math.Inf(-1))
+		}
+		return f
+	case 6:
+		return vh.Pick(r, []any{uint64(1 << 63), uint64(1<<63 + 1), uint64(math.MaxUint64), uint64(math.MaxUint64 - 1), int64(math.MaxInt64), int64(math.MinInt64),
+			float64(1 << 63), float64(1 << 64), -float64(1 << 63), float64(1 << 53), float64(1<<53) + 2, int64(1<<53 + 1), int64(1<<53 - 1)})
+	case 7:
+		return vh.Pick(r, []any{float32(1 << 24), float32(1<<24) + 2, int32(1<<24 + 1), float32(0.5), float64(0.5), float32(0.1), float64(0.1), float64(float32(0.1)),
+			math.Copysign(0, -1), float32(math.Copysign(0, -1)), int8(0), uint8(0), 5e-324, -5e-324, float32(1e-45), 1e300, -1e300, float32(3e38), math.Inf(1), float32(math.Inf(-1))})
+	case 8:
+		return narrow(vh.Pick(r, []int64{-129, -128, -127, -1, 0, 1, 127, 128, 129, 255, 256, 257, 32767, 32768, 65535, 65536, -32768, -32769, math.MaxInt32, math.MaxInt32 + 1, math.MaxUint32, math.MaxUint32 + 1}), r)
+	case 9:
+		return vh.Pick(r, strPool)
+	default:
+		return genNum(r)
+	}
+}
+
+// a number and one of the float64 / float32 values closest to it: a random integer against the float64
+// it rounds to and that float's neighbours; a random float32 against the float64 of the same value and
+// its neighbours (which a comparison in float32 cannot tell apart); a random float64 against its
+// integer part
+func genNeighbours(r *vh.Rng) (any, any) {
+	near := func(f float64) float64 {
+		switch r.Intn(3) {
+		case 0:
+			return math.Nextafter(f, math.Inf(1))
+		case 1:
+			return math.Nextafter(f, math.Inf(-1))
+		}
+		return f
+	}
+	var a, b any
+	switch r.Intn(5) {
+	case 0:
+		i := int64(r.U64() >> uint(r.Intn(64)))
+		if r.Bool() {
+			i = -i
+		}
+		a, b = i, near(float64(i))
+	case 1:
+		u := r.U64() >> uint(r.Intn(64))
+		a, b = u, near(float64(u))
+	case 2:
+		x := math.Float32frombits(uint32(r.U64()))
+		if x != x {
+			x = 0.1
+		}
+		a, b = x, near(float64(x))
+	case 3:
+		f := math.Float64frombits(r.U64()>>2 | uint64(r.Intn(2))<<63) // |f| < 2: fractions
+		f *= float64(int64(1) << uint(r.Intn(40)))
+		a, b = f, narrow(int64(f), r)
+	default:
+		i := int64(r.U64() >> uint(1+r.Intn(63)))
+		a, b = narrow(i, r), narrow(i+int64(r.Intn(3))-1, r)
+	}
+	if r.Bool() {
+		a, b = b, a
+	}
+	return a, b
+}
+
 func genScalar(r *vh.Rng) any {
 	switch r.Intn(6) {
 	case 0:
@@ -274,7 +394,7 @@ func genScalar(r *vh.Rng) any {
 	}
 }
 
-func genDoc(r *vh.Rng) map[string]any {
+func genDoc(r *vh.Rng, base *int64) map[string]any {
 	d := map[string]any{"g": int64(r.Intn(4))}
 	if r.Chance(80) {
 		d["s"] = vh.Pick(r, sPool)
@@ -291,6 +411,8 @@ func genDoc(r *vh.Rng) map[string]any {
 		d["t"] = strings.Join(ws, " ")
 	}
 	switch p := r.Intn(100); {
+	case p < 80 && base != nil:
+		d["n"] = genBoundary(r, *base)
 	case p < 80:
 		d["n"] = genNum(r)
 	case p < 88:
@@ -299,7 +421,9 @@ func genDoc(r *vh.Rng) map[string]any {
 	if r.Chance(80) {
 		d["k"] = float64(r.Intn(9) - 4)
 	}
-	if r.Chance(60) {
+	if base != nil && r.Chance(85) {
+		d["i"] = *base + int64(r.Intn(9)-4) // one kind, neighbouring values
+	} else if r.Chance(60) {
 		d["i"] = int64(r.Intn(7) - 3)
 	}
 	if r.Chance(70) {
@@ -392,7 +516,7 @@ func (w *world) insert(o *vh.Out, r *vh.Rng, n int) {
 		}
 		id, _ := uuid.FromBytes(b[:])
 		w.points[id] = &mpoint{id: id}
-		pts = append(pts, models.Point{Id: id, Data: mustMarshal(genDoc(r))})
+		pts = append(pts, models.Point{Id: id, Data: mustMarshal(genDoc(r, w.base))})
 	}
 	if err := w.s.InsertPoints(pts); err != nil {
 		panic(fmt.Sprintf("valid insert batch rejected: %v", err))
@@ -411,7 +535,7 @@ func (w *world) mutate(o *vh.Out, r *vh.Rng) {
 	for _, id := range ids {
 		switch p := r.Intn(100); {
 		case p < 25:
-			d := genDoc(r)
+			d := genDoc(r, w.base)
 			delete(d, "g")
 			for k := range d {
 				if r.Chance(50) {
@@ -673,8 +797,9 @@ func (n *qnode) specHybrid(id uint64) (sum, abs float64, ranked bool) {
 	return
 }
 
-// the chain of single-sub composites ends in a ranking leaf with a negative weight: the order
-// clause of the property is not met there (finding "rank-order-single-subquery-negative-weight")
+// the chain of single-sub composites ends in a ranking leaf with a negative weight: the index search
+// hands such a result over lowest hybrid score first and Shard.SearchPoints has to put it in order
+// (a violation there gets the signature "rank-order-single-subquery-negative-weight")
 func (n *qnode) passthroughNegative() bool {
 	for len(n.subs) == 1 {
 		n = n.subs[0]
@@ -730,79 +855,91 @@ func returnedData(x models.SearchResult) map[string]any {
 	return out
 }
 
+// exact value of a number (any integer width, float32, float64); nil for NaN and for non-numbers
+func exactNum(v any) *big.Float {
+	switch x := v.(type) {
+	case int8:
+		return new(big.Float).SetInt64(int64(x))
+	case int16:
+		return new(big.Float).SetInt64(int64(x))
+	case int32:
+		return new(big.Float).SetInt64(int64(x))
+	case int64:
+		return new(big.Float).SetInt64(x)
+	case uint8:
+		return new(big.Float).SetUint64(uint64(x))
+	case uint16:
+		return new(big.Float).SetUint64(uint64(x))
+	case uint32:
+		return new(big.Float).SetUint64(uint64(x))
+	case uint64:
+		return new(big.Float).SetUint64(x)
+	case float32:
+		if x != x {
+			return nil
+		}
+		return big.NewFloat(float64(x))
+	case float64:
+		if x != x {
+			return nil
+		}
+		return big.NewFloat(x)
+	}
+	return nil
+}
+
+func isNumber(v any) bool {
+	switch v.(type) {
+	case int8, int16, int32, int64, uint8, uint16, uint32, uint64, float32, float64:
+		return true
+	}
+	return false
+}
+
 // documented order of two values of one sort key: -1/0/1, or judged=false when the documentation
-// says nothing (different kinds of value, NaN, values without an order)
+// says nothing (a number beside a string, NaN, values without an order).  Numbers are compared by
+// their exact value whatever width, signedness or float type they were stored with (big.Float.Cmp
+// does not round); strings byte-wise.
 func docCompare(a, b any) (c int, judged bool) {
-	ka, kb := reflect.ValueOf(a).Kind(), reflect.ValueOf(b).Kind()
-	if ka != kb {
+	if s1, ok := a.(string); ok {
+		if s2, ok := b.(string); ok {
+			return strings.Compare(s1, s2), true
+		}
 		return 0, false
 	}
-	toRat := func(v any) *big.Float {
-		switch x := v.(type) {
-		case int8:
-			return big.NewFloat(float64(x))
-		case int16:
-			return big.NewFloat(float64(x))
-		case int32:
-			return big.NewFloat(float64(x))
-		case int64:
-			return new(big.Float).SetInt64(x)
-		case uint8:
-			return big.NewFloat(float64(x))
-		case uint16:
-			return big.NewFloat(float64(x))
-		case uint32:
-			return big.NewFloat(float64(x))
-		case uint64:
-			return new(big.Float).SetUint64(x)
-		case float32:
-			if math.IsNaN(float64(x)) {
-				return nil
-			}
-			return big.NewFloat(float64(x))
-		case float64:
-			if math.IsNaN(x) {
-				return nil
-			}
-			return big.NewFloat(x)
-		}
-		return nil
-	}
-	if s1, ok := a.(string); ok {
-		return strings.Compare(s1, b.(string)), true
-	}
-	r1, r2 := toRat(a), toRat(b)
+	r1, r2 := exactNum(a), exactNum(b)
 	if r1 == nil || r2 == nil {
 		return 0, false
 	}
 	return r1.Cmp(r2), true
 }
 
-// must row a stand before row b?  +1: a must come after b (violation if a is first), 0: free / unknown
-func docOrder(a, b map[string]any, sorts []models.SortOption) int {
+// must row a stand before row b?  +1: a must come after b (violation if a is first), 0: free / unknown.
+// crossKind: the deciding pair were numbers of two different Go kinds.
+func docOrder(a, b map[string]any, sorts []models.SortOption) (c int, crossKind bool) {
 	for _, s := range sorts {
 		av, aok, _ := lookupPath(a, s.Property)
 		bv, bok, _ := lookupPath(b, s.Property)
 		switch {
 		case aok && !bok:
-			return -1
+			return -1, false
 		case !aok && bok:
-			return 1
+			return 1, false
 		case !aok && !bok:
 			continue
 		}
 		c, judged := docCompare(av, bv)
 		if !judged {
-			return 0
+			return 0, false
 		}
 		if s.Descending {
 			c = -c
 		}
 		if c != 0 {
-			return c
+			return c, reflect.ValueOf(av).Kind() != reflect.ValueOf(bv).Kind()
 		}
 	}
-	return 0
+	return 0, false
 }
 
 type request struct {
@@ -912,7 +1049,10 @@ func (w *world) search(o *vh.Out, r *vh.Rng, rq request) {
 	}
 	line := fmt.Sprintf("search tree=%s select=%s sort=%s off=%d lim=%d variant=%s pick=%s req=%s", rq.tree.leafStr, selStr, sortStr, rq.off, rq.lim, w.variant, pickStr, base64.StdEncoding.EncodeToString(reqJSON))
 	replay := func() string { return "new\n" + strings.Join(w.hist, "\n") + "\n" + line }
-	fail := func(sig, what string) { o.Fail(sig, what+" | request "+string(reqJSON), replay()) }
+	fail := func(sig, what string) {
+		o.Stats["failed-search:"+sig]++
+		o.Fail(sig, what+" | request "+string(reqJSON), replay())
+	}
 	specSet := rq.tree.specSet()
 	kind := "search-" + rq.tree.kind
 	if len(rq.sorts) > 0 {
@@ -924,7 +1064,9 @@ func (w *world) search(o *vh.Out, r *vh.Rng, rq request) {
 			impl = "error:select"
 		}
 		o.Emit("search-select-error", line, impl, true)
-		if impl != "error:select" || !selectErrorExpected(w, specSet, rq.sel) {
+		if impl == "error:select" && selectErrorExpected(w, specSet, rq.sel) {
+			fail("select-nested-through-scalar", "a selected path runs into a scalar / nil / array on one of the matching points and the whole search fails: "+err.Error())
+		} else {
 			fail("search-error", "search failed: "+err.Error())
 		}
 		return
@@ -941,7 +1083,11 @@ func (w *world) search(o *vh.Out, r *vh.Rng, rq request) {
 	// ---------------------------------------------------------------- oracle on the real answers
 	full, err := w.s.SearchPoints(models.SearchRequest{Query: rq.tree.q, Select: rq.sel, Sort: rq.sorts})
 	if err != nil {
-		fail("search-error", "the same request without offset/limit failed: "+err.Error())
+		if strings.Contains(err.Error(), "could not select point data") && selectErrorExpected(w, specSet, rq.sel) {
+			fail("select-nested-through-scalar", "the same request without offset/limit fails because a selected path runs into a scalar / nil / array on one matching point: "+err.Error())
+		} else {
+			fail("search-error", "the same request without offset/limit failed: "+err.Error())
+		}
 		return
 	}
 	ranked := func(x models.SearchResult) bool { return x.Score != nil || x.Distance != nil }
@@ -980,15 +1126,18 @@ func (w *world) search(o *vh.Out, r *vh.Rng, rq request) {
 				sawUnranked = true
 				continue
 			}
+			if rq.tree.passthroughNegative() {
+				o.Stats["rank-order-judged(single-subquery-negative-weight)"]++
+			}
 			if sawUnranked {
 				fail("rank-before-unranked", fmt.Sprintf("ranked node %d follows a point matched only by filters", x.NodeId))
 			}
 			if i > 0 && ranked(full[i-1]) && okey(full[i-1].HybridScore) < okey(x.HybridScore) {
+				sig := "rank-order"
 				if rq.tree.passthroughNegative() {
-					o.Stats["order-not-judged(single-subquery-negative-weight)"]++
-				} else {
-					fail("rank-order", fmt.Sprintf("hybrid scores not highest first at position %d: %v then %v", i, full[i-1].HybridScore, x.HybridScore))
+					sig = "rank-order-single-subquery-negative-weight"
 				}
+				fail(sig, fmt.Sprintf("hybrid scores not highest first at position %d: %v then %v", i, full[i-1].HybridScore, x.HybridScore))
 			}
 		}
 	}
@@ -1029,13 +1178,20 @@ func (w *world) search(o *vh.Out, r *vh.Rng, rq request) {
 	// sort
 	for i := 1; i < len(full) && len(rq.sorts) > 0; i++ {
 		a, b := returnedData(full[i-1]), returnedData(full[i])
-		switch docOrder(a, b, rq.sorts) {
+		switch c, cross := docOrder(a, b, rq.sorts); c {
 		case 1:
-			fail("sort-order", fmt.Sprintf("rows %d,%d out of the documented order: %s then %s", i-1, i, canon(a), canon(b)))
+			sig := "sort-order"
+			if cross {
+				sig = "sort-numeric-cross-kind"
+			}
+			fail(sig, fmt.Sprintf("rows %d,%d out of the documented order: %s then %s", i-1, i, canon(a), canon(b)))
 		case 0:
 			o.Stats["sort-pairs-tied-or-not-judged"]++
 		default:
 			o.Stats["sort-pairs-judged"]++
+			if cross {
+				o.Stats["sort-pairs-judged-cross-kind"]++
+			}
 		}
 	}
 	// page: the contiguous slice of that order (modulo ties)
@@ -1058,7 +1214,9 @@ func (w *world) search(o *vh.Out, r *vh.Rng, rq request) {
 		pseen[x.NodeId] = true
 		tied := true
 		if len(rq.sorts) > 0 {
-			tied = docOrder(returnedData(x), returnedData(y), rq.sorts) == 0 && docOrder(returnedData(y), returnedData(x), rq.sorts) == 0
+			c1, _ := docOrder(returnedData(x), returnedData(y), rq.sorts)
+			c2, _ := docOrder(returnedData(y), returnedData(x), rq.sorts)
+			tied = c1 == 0 && c2 == 0
 		} else {
 			tied = ranked(x) == ranked(y) && (ranked(x) && okey(x.HybridScore) == okey(y.HybridScore) || !ranked(x) && x.NodeId == y.NodeId)
 		}
@@ -1092,49 +1250,57 @@ func (w *world) putDocs(o *vh.Out, docs []map[string]any) []uint64 {
 
 func probes(o *vh.Out, dir, variant string) {
 	allG := models.Query{Property: "g", Integer: &models.SearchIntegerOptions{Value: 1, Operator: models.OperatorEquals}}
-	// --- numbers of different encoded width are sorted by width (CompareAny orders by reflect.Kind)
-	{
+	// --- explicit sort on numbers: (1) values stored with different msgpack widths, (2) neighbours above
+	// 2^53, the ends of int64 / uint64, floats at and beside integers.  Inserted in descending order
+	// of value so that the arrival order is the wrong one for the ascending sort.
+	sortProbe := func(name string, vals []any) {
 		w := newWorld(dir, false, 0, variant)
 		o.Emit("new", "new", "ok", false)
-		vals := []any{int8(5), int16(-200), uint8(200), int64(1) << 40, uint16(300), float64(1.5)}
 		var docs []map[string]any
 		for _, v := range vals {
 			docs = append(docs, map[string]any{"g": int64(1), "n": v})
 		}
 		w.putDocs(o, docs)
-		rq := request{tree: &qnode{kind: "filter", q: allG}, sel: []string{"n"}, sorts: []models.SortOption{{Property: "n"}}, lim: 100}
-		w.answerLeaves(rq.tree)
-		res, err := w.s.SearchPoints(rq.sr())
-		if err != nil {
-			panic(err)
-		}
-		var got []string
-		bad := false
-		for i, x := range res {
-			got = append(got, canon(x.DecodedData["n"]))
-			if i > 0 {
-				f := func(v any) float64 {
-					rv := reflect.ValueOf(v)
-					switch {
-					case rv.CanInt():
-						return float64(rv.Int())
-					case rv.CanUint():
-						return float64(rv.Uint())
+		for _, desc := range []bool{false, true} {
+			rq := request{tree: &qnode{kind: "filter", q: allG}, sel: []string{"n"}, sorts: []models.SortOption{{Property: "n", Descending: desc}}, lim: 100}
+			w.answerLeaves(rq.tree)
+			res, err := w.s.SearchPoints(rq.sr())
+			if err != nil {
+				panic(err)
+			}
+			var got []string
+			bad, cross := false, false
+			for i, x := range res {
+				got = append(got, canon(x.DecodedData["n"]))
+				if i > 0 {
+					c, judged := docCompare(res[i-1].DecodedData["n"], x.DecodedData["n"])
+					if desc {
+						c = -c
 					}
-					return rv.Float()
-				}
-				if f(res[i-1].DecodedData["n"]) > f(x.DecodedData["n"]) {
-					bad = true
+					if judged && c > 0 && !bad {
+						bad = true
+						cross = reflect.ValueOf(res[i-1].DecodedData["n"]).Kind() != reflect.ValueOf(x.DecodedData["n"]).Kind()
+					}
 				}
 			}
-		}
-		w.search(o, vh.NewRng(1), rq) // the model agrees with the code (the comparator is a preorder, just not the numeric one)
-		if bad {
-			o.Fail("sort-numeric-cross-kind", "ascending sort on a numeric field whose values were stored with different msgpack widths returns "+strings.Join(got, " ")+" (ordered by reflect.Kind, not by value)",
-				"new\n"+strings.Join(w.hist, "\n"))
+			before := len(o.Oracle)
+			w.search(o, vh.NewRng(1), rq)
+			if bad && len(o.Oracle) == before {
+				sig, why := "sort-order", "(numbers of one kind out of order)"
+				if cross {
+					sig, why = "sort-numeric-cross-kind", "(numbers of different kinds are not ordered by value)"
+				}
+				o.Fail(sig, name+": sort on a numeric field, descending="+fmt.Sprint(desc)+", returns "+strings.Join(got, " ")+" "+why, "new\n"+strings.Join(w.hist, "\n"))
+			}
 		}
 		w.s.Close()
 	}
+	sortProbe("mixed msgpack widths", []any{int64(1) << 40, uint16(300), uint8(200), int8(5), float64(1.5), int16(-200)})
+	sortProbe("neighbouring large integers", []any{int64(1700000000000000003), int64(1700000000000000002), int64(1700000000000000001), int64(1700000000000000000),
+		int64(-1700000000000000001), int64(-1700000000000000002), int64(-1700000000000000003)})
+	sortProbe("ends of the integer types and floats beside integers", []any{math.Inf(1), float64(1 << 64), uint64(math.MaxUint64), uint64(math.MaxUint64 - 1), uint64(1<<63 + 1), float64(1 << 63),
+		int64(math.MaxInt64), int64(math.MaxInt64 - 1), float64(1<<53) + 2, int64(1<<53 + 1), float64(1 << 53), int64(1<<53 - 1), float32(1<<24) + 2, int32(1<<24 + 1), float32(1 << 24),
+		uint8(1), float32(0.5), float64(0.25), int8(0), float64(-0.25), int8(-1), float64(-(1 << 53)), int64(-(1 << 53) - 1), int64(math.MinInt64 + 1), float64(-(1 << 63)) * 2, math.Inf(-1)})
 	// --- a nested select that runs into a scalar on one point fails the whole search
 	{
 		w := newWorld(dir, false, 0, variant)
@@ -1143,8 +1309,9 @@ func probes(o *vh.Out, dir, variant string) {
 		rq := request{tree: &qnode{kind: "filter", q: allG}, sel: []string{"a.b"}, lim: 100}
 		w.answerLeaves(rq.tree)
 		_, err := w.s.SearchPoints(rq.sr())
+		before := len(o.Oracle)
 		w.search(o, vh.NewRng(1), rq)
-		if err != nil {
+		if err != nil && len(o.Oracle) == before {
 			o.Fail("select-nested-through-scalar", "select [\"a.b\"]: one point stores a scalar under \"a\" and the whole search fails ("+err.Error()+") although another point has a.b",
 				"new\n"+strings.Join(w.hist, "\n"))
 		}
@@ -1162,6 +1329,7 @@ func probes(o *vh.Out, dir, variant string) {
 		leaf := &qnode{kind: "flat", weight: -1, q: models.Query{Property: "v", VectorFlat: &models.SearchVectorFlatOptions{Vector: []float32{0, 0}, Operator: models.OperatorNear, Limit: 10, Weight: f32p(-1)}}}
 		tree := &qnode{kind: "or", subs: []*qnode{leaf}, q: models.Query{Property: "_or", Or: []models.Query{leaf.q}}}
 		rq := request{tree: tree, lim: 100}
+		before := len(o.Oracle)
 		w.search(o, vh.NewRng(1), rq)
 		res, err := w.s.SearchPoints(rq.sr())
 		if err != nil {
@@ -1175,7 +1343,7 @@ func probes(o *vh.Out, dir, variant string) {
 				bad = true
 			}
 		}
-		if bad {
+		if bad && len(o.Oracle) == before {
 			o.Fail("rank-order-single-subquery-negative-weight", "_or with one vectorFlat sub-query of weight -1: hybrid scores come back "+strings.Join(hs, " ")+" (lowest first; with two sub-queries they are re-sorted)",
 				"new\n"+strings.Join(w.hist, "\n"))
 		}
@@ -1228,12 +1396,33 @@ func pureLines(o *vh.Out, r *vh.Rng, n int) {
 		}
 		o.Emit("fadd", "fadd "+bits(a)+" "+bits(b), bits(a+b), true)
 	}
-	for i := 0; i < n; i++ {
+	for i := 0; i < 4*n; i++ {
 		a, b := genScalar(r), genScalar(r)
-		if r.Chance(30) {
+		if i >= n {
+			// two values around the same base: neighbours, the same value in another width, floats beside integers
+			base := vh.Pick(r, bigBases)
+			a, b = genBoundary(r, base), genBoundary(r, base)
+		}
+		if i >= 2*n {
+			a, b = genNeighbours(r)
+		}
+		if r.Chance(20) {
 			b = a
 		}
-		o.Emit("cmp", "cmp "+canon(a)+" "+canon(b), strconv.Itoa(utils.CompareAny(a, b)), true)
+		got := utils.CompareAny(a, b)
+		line := "cmp " + canon(a) + " " + canon(b)
+		o.Emit("cmp", line, strconv.Itoa(got), true)
+		// the documented order of two sort values, evaluated exactly
+		if want, judged := docCompare(a, b); judged {
+			o.Stats["cmp-judged"]++
+			if got != want {
+				sig := "cmp-order"
+				if isNumber(a) && reflect.ValueOf(a).Kind() != reflect.ValueOf(b).Kind() {
+					sig = "cmp-numeric-cross-kind"
+				}
+				o.Fail(sig, fmt.Sprintf("utils.CompareAny(%T %v, %T %v) = %d, the values compare %d", a, a, b, b, got, want), line)
+			}
+		}
 	}
 }
 
@@ -1267,10 +1456,14 @@ func main() {
 		}
 	}()
 	variant := probePage(o)
-	pureLines(o, rng, 300)
 	probes(o, *dir, variant)
+	pureLines(o, rng, 300)
 	for h := 0; h < *nw; h++ {
 		w := newWorld(*dir, h%2 == 0, h, variant)
+		if rng.Chance(35) {
+			b := vh.Pick(rng, bigBases)
+			w.base = &b
+		}
 		o.Emit("new", "new", "ok", false)
 		w.insert(o, rng, 3+rng.Intn(10))
 		if rng.Bool() {
